@@ -10,7 +10,7 @@ from inscripta.biocantor.parent import Parent
 
 from harness.common import (
     ALL, AND, ANY, IFF, ITE, MINUS, NOT, OR, PLUS, SUM, CompoundInterval, EmptyLocation, SingleInterval, Strand,
-    blocks_of, layout_blocks, layout_params, layout_pre, make_location, member, mult, sname, total_len, wellformed,
+    blocks_of, layout_blocks, layout_params, layout_pre, make_location, member, mult, same_blocks, sname, total_len, wellformed,
 )
 from vlib.obl import Obl
 from vlib.sym import MAX, MIN
@@ -63,7 +63,32 @@ def _operands(ka, kb, sa, sb, kw, pa=None, pb=None, force_a=False, force_b=False
     B = layout_blocks(kb, kw, "b")
     la = make_location(A, sa, parent=pa, force_compound=force_a)
     lb = make_location(B, sb, parent=pb, force_compound=force_b)
+    _OPERANDS.append((A, sa, pa, force_a, la))
+    _OPERANDS.append((B, sb, pb, force_b, lb))
     return A, B, la, lb
+
+
+_OPERANDS = []
+
+
+def operands_unchanged(fn):
+    """every binary obligation also asserts that the operation left both operands as they were (blocks in the same order, strand, length):
+    compared with untouched twins built from the same coordinates"""
+
+    def wrapped(**kw):
+        del _OPERANDS[:]
+        r = fn(**kw)
+        conds = [r]
+        for blocks, strand, par, force, loc in list(_OPERANDS):
+            twin = make_location(blocks, strand, parent=par, force_compound=force)
+            conds.append(same_blocks(blocks_of(loc), blocks_of(twin)))
+            conds.append(loc.strand is strand)
+            conds.append(len(loc) == len(twin))
+        del _OPERANDS[:]
+        return AND(*conds)
+
+    wrapped.__name__ = getattr(fn, "__name__", "fn")
+    return wrapped
 
 
 def _params2(ka, kb, extra):
@@ -600,4 +625,7 @@ def obligations(tier):
                                    _unary_params(k, {"p": int}), pre, budget=600, cost=60,
                                    desc="%s on overlapping/nested layouts (signed gaps)" % mode,
                                    bounds="k=%d blocks, signed gaps, unbounded ints" % k, examples=[ex]))
+    for o in out:
+        if o.kind == "crosshair":
+            o.fn = operands_unchanged(o.fn)
     return out
